@@ -177,7 +177,9 @@ fn features(v: &J, f: &mut BTreeSet<String>) {
     J::Array(a) => for x in a { features(x, f); },
     J::String(s) => {
       if let Some(rest) = s.strip_prefix("String:") {
-        if rest.chars().any(|c| c == '"' || c == '\\' || c == '\n' || c == '\t' || c == '\r') { f.insert("str-special".into()); }
+        // a string whose VALUE contains a quote or a backslash (the formatter prints them unescaped); line breaks and
+        // tabs are printed raw and read back unchanged, so they are not part of the class
+        if rest.chars().any(|c| c == '"' || c == '\\') { f.insert("str-special".into()); }
       }
     }
     _ => {}
